@@ -221,6 +221,17 @@ func runC06(c *Collector, r *Rng, thorough bool) {
 		{"DKey", "a40102200121" + "5820" + zeros(31) + "01" + "22f5"}, {"DKey", "a40102200121" + "5820" + zeros(31) + "01" + "22f4"},
 		{"DKey", "a40102200121" + "5820" + zeros(31) + "05" + "22f5"}, {"DKey", "a40102200321" + "5842" + zeros(65) + "03" + "22f5"},
 		{"DKey", "a50102200121" + "5820" + zeros(31) + "01" + "22f5" + "23" + "5820" + ones(32)},
+		// countersignature parameters (7, 11) holding an empty list, a list of nulls, nested empty lists, in every decoder
+		{"DUnprot", "a10780"}, {"DUnprot", "a10b80"}, {"DUnprot", "a10781f6"}, {"DUnprot", "a10b82f6f6"}, {"DUnprot", "a1078180"}, {"DUnprot", "a107818340a04101" + ""}, {"DUnprot", "a10782" + "8340a04101" + "f6"},
+		{"DSign1", "d28440a1078041014100"}, {"DSign1", "d28440a10b81f641014100"}, {"DSign1U", "8440a1078041014100"}, {"DSignature", "8340a107804101"}, {"DSignature", "8340a10b81f64101"},
+		{"DSignMsg", "d8628440a10780f6818340a04101"}, {"DSignMsg", "d8628440a0f6818340a107804101"}, {"DSign1", "d28440a1078340a107804101" + "41014100"}, {"DSign1", "d28440a107818340a10b81f64101" + "41014100"},
+		// inputs that end inside a multi-octet head (byte string, map, array, tag, integer), given to the bucket decoders
+		// directly and inside messages
+		{"DProt", "58"}, {"DProt", "59"}, {"DProt", "5900"}, {"DProt", "5a"}, {"DProt", "5a00"}, {"DProt", "5a0000"}, {"DProt", "5a000000"}, {"DProt", "5b"}, {"DProt", "5b00"}, {"DProt", "5b000000"},
+		{"DProt", "5b00000000000000"}, {"DProt", "5f"}, {"DProt", "41"}, {"DProt", "4201"}, {"DProt", "43a101"}, {"DProt", "44a10118"}, {"DProt", "45a1011901"},
+		{"DUnprot", "b8"}, {"DUnprot", "b9"}, {"DUnprot", "b900"}, {"DUnprot", "ba"}, {"DUnprot", "ba000000"}, {"DUnprot", "bb"}, {"DUnprot", "bb00000000000000"}, {"DUnprot", "a1"}, {"DUnprot", "a101"}, {"DUnprot", "a10118"}, {"DUnprot", "a1011b00"}, {"DUnprot", "a104"}, {"DUnprot", "a10458"},
+		{"DSign1", "d2"}, {"DSign1", "d284"}, {"DSign1", "d28458"}, {"DSign1", "d2845900"}, {"DSign1", "d28440b8"}, {"DSign1", "d28440a058"}, {"DSign1", "d28440a0f658"}, {"DSign1U", "84"}, {"DSign1U", "8458"}, {"DSign1U", "98"}, {"DSign1U", "9800"},
+		{"DSignature", "83"}, {"DSignature", "8358"}, {"DSignature", "8340b9"}, {"DSignMsg", "d8"}, {"DSignMsg", "d862"}, {"DSignMsg", "d86284"}, {"DSignMsg", "d8628440a0f698"}, {"DSignMsg", "d8628440a0f68183"}, {"DSignMsg", "d8628440a0f6818358"}, {"DKey", "b8"}, {"DKey", "a1"}, {"DKey", "a101"}, {"DKey", "a10118"},
 		// key_ops entries outside the registry: negative, beyond the word size, extreme; alone and next to sign / verify
 		{"DKey", "a40101048120" + "2006" + "215820" + ones(32)}, {"DKey", "a4010104820120" + "2006" + "235820" + ones(32)}, {"DKey", "a401010483200102" + "2006" + "215820" + ones(32)},
 		{"DKey", "a401010481383f" + "2006" + "215820" + ones(32)}, {"DKey", "a40101048138ff" + "2006" + "235820" + ones(32)}, {"DKey", "a4010104811840" + "2006" + "215820" + ones(32)},
